@@ -56,7 +56,8 @@ def gen_cases(rng, tier: str) -> list[dict]:
             prior.append(c["p"])
             cases.append(c)
     for origin, pairs in (("near-special", common.near_special(rng, common.sizes(tier, 400, 4000))),
-                          ("compensating-magnitudes", common.compensating_products(rng, common.sizes(tier, 150, 1500)))):
+                          ("compensating-magnitudes", common.compensating_products(rng, common.sizes(tier, 150, 1500))),
+                          ("tiny-powers", common.tiny_powers(rng, common.sizes(tier, 100, 1000)))):
         for e, pt in pairs:
             c = common.make_eval_case(origin, e, pt)
             c["entry"] = "number" if len(e._variable_names) <= 1 and rng.random() < 0.3 else "point"
